@@ -219,9 +219,10 @@ where
 
     /// Divide this polynomial by another, getting a quotient and remainder, using tol to check for 0
     pub fn divide(&self, divisor: &Polynomial<N>) -> Result<(Self, Self), String> {
-        if divisor.coefficients.len() == 1
-            && divisor.coefficients[0].real().abs() < self.tolerance
-            && divisor.coefficients[0].imaginary().abs() < self.tolerance
+        if divisor
+            .coefficients
+            .iter()
+            .all(|c| c.real().abs() < self.tolerance && c.imaginary().abs() < self.tolerance)
         {
             return Err("Polynomial division: Can not divide by 0".to_owned());
         }
